@@ -434,7 +434,7 @@ harness_run(void)
     /* corpus size is bounded by 128; units beyond the corpus return at once */
     for (uint64_t i = 0; i < 128u * nparts; i++)
         vh_unit("mutate", i, u_mutate, NULL);
-    for (uint64_t i = 0; i < (vh_tier ? 4000u : 200u); i++)
+    for (uint64_t i = 0; i < (vh_tier ? 16000u : 200u); i++)
         vh_unit("options", i, u_options, NULL);
     static const char *req[] = { "mutation class: single-bit flip", "mutation class: two-bit flip",
                                  "mutation class: burst of 2..16 bits", "mutation class: truncation",
